@@ -130,9 +130,9 @@ def _gen_writer(rng, stream):
             if flavour != "gdc" and rng.random() < 0.3:
                 # names a scheme-less writer cannot put on the column line (first name starting with '#', a name with
                 # TAB / CR / LF) and look-alikes it can ('#' in a later name)
-                names = rng.choice([["#a", "b"], ["a", "#b"], ["a\tx", "b"], ["a", "b\r"], ["a\nb", "c"], ["#", "b"],
+                names = rng.choice([[], [], ["#a", "b"], ["a", "#b"], ["a\tx", "b"], ["a", "b\r"], ["a\nb", "c"], ["#", "b"],
                                     ["a", "b\tc", "d"], ["a b", "c"]])
-            line = "\t".join(rng.choice(["x", "y", ""]) for _ in names)
+            line = "\t".join(rng.choice(["x", "y", ""]) for _ in names) if names else "x"     # no names: a record without columns
             if stream != "valid" and rng.random() < 0.4:
                 line = _spoil(rng, line).replace("\n", " ")
             specs.append({"line": line, "names": names, "scheme": None, "ln": rng.choice([None, 5])})
@@ -188,6 +188,10 @@ def corpus():
          "reset": True, "vscheme": ["builtin", "gdc-1.0.0"],
          "tamper": [["key", "Start_Position", "Hugo_Symbol"], ["idx", "Start_Position", 0]]},
         {"kind": "line", "stream": "corpus", "spec": {"line": "1\t2", "names": None, "scheme": None, "ln": 3}},
+        # ... and a first record without columns
+        {"kind": "writer", "stream": "corpus", "hlines": [], "channel": "fd",
+         "specs": [{"line": "x", "names": [], "scheme": None, "ln": None},
+                   {"line": "1\t2", "names": ["a", "b"], "scheme": None, "ln": None}]},
         # a scheme-less writer refuses names the column line cannot carry (ValueError, nothing written, still scheme-less)
         {"kind": "writer", "stream": "corpus", "hlines": ["#center x"], "channel": "fd",
          "specs": [{"line": "1\t2", "names": ["#a", "b"], "scheme": None, "ln": None},
